@@ -17,7 +17,7 @@ import vlib
 META = {
     "category": "proof",
     "text": "Coq theorems (Conc/Props_C06.v, closed under the global context): for every schedule of any number of client threads, the flush thread (rollover handshake through imm_trigger / mem_seq_no and its own wait-list link, version installation) and admissible compactions, the small-step interleaving model of lsmtk's write/load/range_scan refines an atomic multi-key snapshot store: every write (whole batch) takes effect at one instant between invocation and response, every read takes its view at one instant and returns the latest committed write per key (never stale w.r.t. completed writes, never unwritten, monotone), every view holds all or none of a batch, a scan is one snapshot; plus mutual exclusion / wait-list order = sequence order invariants, exclusive log ownership at seal, no duplicate skiplist insert. The code is tied to the model by real multi-threaded runs (2..8 clients + real memtable thread + real compaction threads, seeded yields and forced gate schedules): the recorded hook trace must be accepted step by step by the extracted model and the extracted atomic store, and the invocation/response history is checked by an independent oracle (a consistent cut in sequence order must exist for every read, respecting real time). F6 (batches torn by readers at the last ASSIGNED sequence number) was confirmed on the real code and repaired (70b43d5); the pre-repair machine is kept and proved to tear (C06_batch_atomic_refuted_before_repair). A second defect found by the gate harness (a failed write, e.g. an empty batch, left the wait list without waking the next writer: every later write hung) was repaired (bb64109) and the error path is part of the model.",
-    "note": "Trusted / not covered: sequential consistency (no weak-memory reasoning); skiplist insert and seek are atomic steps (C17); the merged/pruned/bounded scan cursor is modelled by its result (C11/C03/C07); WaitList at the level of its specification (refinement proved in C18), link never blocks (< 65536 writers in flight); condition variables as spurious-wake-up-allowed (safety only; liveness is C20); error paths of write (log append failure) are not modelled; real runs sample schedules (the theorems cover all); compactions in real runs are not replayed on the model (its tree only gets flushed files; equal reads are what is compared).",
+    "note": "Trusted / not covered: sequential consistency (no weak-memory reasoning); skiplist insert and seek are atomic steps (C17); the implementation machine models a scan as snapshot + read steps and the merged/pruned/bounded cursor by its result: the cursor walk itself (next, prev, seek over merge + prune + bounds) is C03/C11's theorem, C06 validates the composition on the real store (every snapshot cursor walked forward and backward and used as a multi-get must show the atomic snapshot's map); WaitList at the level of its specification (refinement proved in C18), link never blocks (< 65536 writers in flight); condition variables as spurious-wake-up-allowed (safety only; liveness is C20); error paths of write (log append failure) are not modelled; real runs sample schedules (the theorems cover all); compactions in real runs are not replayed on the model (its tree only gets flushed files; equal reads are what is compared).",
 }
 
 PROPS = "theories/Conc/Props_C06.v"
@@ -842,11 +842,12 @@ def run(chk):
 
     chk.coverage.update({
         "evaluations": len(cases), "distinct_nontrivial": len(distinct),
-        "rule": "one evaluation = one multi-threaded session of the real store (2..8 client threads + the real memtable thread + 0..2 real compaction threads; put / del / multi-key batches incl. duplicates, deletes and empty batches / get / full and ranged scans; memtable sizes from 150 B (constant rollover) to unbounded; seeded yield probability 0..0.8 at the hook points; 6 forced gate schedules) whose recorded event trace (one SplitMix64 seed for the programs, option set and yield seed) is replayed on the extracted model and atomic store and whose invocation/response history is checked by the direct oracle; non-trivial = at least 40 model labels and at least one read whose snapshot was taken while a write with a larger sequence number was assigned and not yet complete; distinct = distinct label sequences",
+        "rule": "one evaluation = one multi-threaded session of the real store (2..8 client threads + the real memtable thread + 0..2 real compaction threads; put / del / multi-key batches incl. duplicates, deletes, empty batches and batches that create new keys while updating existing ones / get / full and ranged scans walked forward, or forward and then backward (seek_to_last + prev) on the same snapshot cursor / multi-gets = several seeks on ONE snapshot cursor (sorted or not, repeats, absent keys); memtable sizes from 150 B (constant rollover) to unbounded; seeded yield probability 0..0.8 at the hook points; 6 forced gate schedules) whose recorded event trace (one SplitMix64 seed for the programs, option set and yield seed) is replayed on the extracted model and atomic store and whose invocation/response history is checked by the direct oracle; non-trivial = at least 40 model labels and at least one read whose snapshot was taken while a write with a larger sequence number was assigned and not yet complete; distinct = distinct label sequences",
         "samples": [case_line(cases[ncorpus])[:400], case_line(cases[-1])[:400]],
         "input_distribution": stats, "corpus_cases": ncorpus, "forced_schedules": nforced,
         "correspondence": "real store (hooks ea9fafc: sync42::verif recorder + lsmtk kvs verif_events) vs extracted Conc.KvsConc.step and Conc.Spec.sstep, label by label, with the store's scalars (seq_no, mem_seq_no, imm_trigger, has_imm, read timestamp) asserted equal to the model's at every hook that reports them",
-        "direct_oracle": "writes ordered by their assigned sequence numbers; every get/scan must equal the store contents at one cut of that order between (max seq completed before its invocation) and (max seq assigned before its response), cuts non-decreasing along real time; on failure the property text itself is evaluated: per-key feasibility and batch tearing",
+        "composition_note": "Conc.KvsConc models range_scan as the snapshot step plus read steps whose result is the next live pair of the snapshot; that the real cursor stack (MergingCursor + PruningCursor + BoundsCursor: next, prev, seek) returns exactly that is the theorem of C03/C11. C06 checks the composition on the real store: forward walk = reverse(backward walk) = multi-get answers = the map of the atomic snapshot store at one cut, all-or-nothing per batch; only the forward walk is replayed on the model (LScanNext), the backward walk and the multi-get are judged by the direct oracle",
+        "direct_oracle": "writes ordered by their assigned sequence numbers; every get / scan (both walks) / multi-get must equal the store contents at one cut of that order between (max seq completed before its invocation) and (max seq assigned before its response), cuts non-decreasing along real time; on failure the property text itself is evaluated: per-key feasibility and batch tearing",
         "disagreements_impl_vs_model": len(corr_bad), "disagreements_impl_vs_spec": len(prop_bad), "machinery_failures": len(mach_bad),
         "acceptor_sensitivity": "%d of the first %d recorded traces are rejected by the extracted PRE-repair machine (step_unrepaired: snapshot at the last assigned sequence number)" % (unrep_rejects, len(sample)),
         "trusted_base": [
